@@ -74,6 +74,7 @@ class Cfg:
     lists: bool = True
     named_consts: bool = True
     allow_global_stmt: bool = True
+    multiline: float = 0.2  # probability of wrapping a parenthesised expression over two lines
 
 
 class Scope:
@@ -588,7 +589,46 @@ class Gen:
         return "\n".join(out) + "\n"
 
 
+def wrap_multiline(line: str) -> str | None:
+    """Break a statement inside its outermost parentheses after a top-level operator."""
+    i = line.find("(")
+    if i < 0 or line.lstrip().startswith(("def ", "if ", "elif ", "while ", "for ", "return ")):
+        return None
+    depth = 0
+    inq = False
+    for j in range(i, len(line)):
+        ch = line[j]
+        if ch == '"':
+            inq = not inq
+        if inq:
+            continue
+        if ch in "([":
+            depth += 1
+        elif ch in ")]":
+            depth -= 1
+            if depth == 0:
+                break
+        elif depth == 1 and ch == " ":
+            for op in (" + ", " - ", " * ", " / ", " and ", " or ", " else ", ", "):
+                if line.startswith(op, j) and j > i + 1:
+                    k = j + len(op)
+                    ind = len(line) - len(line.lstrip())
+                    return line[:k].rstrip() + "\n" + " " * (ind + 8) + line[k:]
+    return None
+
+
 def generate(seed: int, cfg: Cfg | None = None):
     g = Gen(seed, cfg)
     src = g.program()
+    if g.cfg.multiline > 0:
+        r = random.Random(seed ^ 0x5EED)
+        out = []
+        for line in src.split("\n"):
+            if r.random() < g.cfg.multiline:
+                w = wrap_multiline(line)
+                if w is not None:
+                    g.features.add("multiline_stmt")
+                    line = w
+            out.append(line)
+        src = "\n".join(out)
     return src, sorted(g.features)
